@@ -1,3 +1,3 @@
-(* C08 — navigation independence.  Text reader statements used by this property are in
-   Props/C07text.v (skipper frame and progress lemmas); re-exported.  Statements only. *)
-From IonV Require Export Props.C07text.
+(* C08 — navigation independence.  Binary: Props/C08bin.v; text reader: skipper frame and progress
+   lemmas of Props/C07text.v.  Statements re-exported. *)
+From IonV Require Export Props.C08bin Props.C07text.
